@@ -20,7 +20,7 @@ MANIFEST = {
 }
 
 BOUNDS = {"quick": {"vertices": 3, "links": 2}, "thorough": {"vertices": 3, "links": 3}}
-TIME_BUDGET = {"quick": 300, "thorough": 2400}
+TIME_BUDGET = {"quick": 300, "thorough": 1200}
 STUBS = ["rfunc -> uninterpreted function Vertex -> String (unbounded)", "sort -> uninterpreted injective function Vertex -> Int",
          "repr(vertex) -> distinct opaque text per object"]
 ASSUMPTIONS = ["sort keys pairwise distinct", "rfunc labels do not start with '<' (they cannot be confused with a default repr)", "rfunc returns strings and is pure", "links are directed / undirected edges (defaults of neighbors())"]
